@@ -1,6 +1,6 @@
 (* Pins the C01 statements. Compiled on every run. *)
 From VP Require Import Base.Tactics Zdd.Model Zdd.ProofsBase Zdd.ProofsPwo Zdd.ProofsArena
-  Sase.Model Sase.ProofsBounds Sase.ProofsSound Sase.ProofsSoundEngine Sase.ProofsCompile Sase.ProofsKleene Sase.Props.
+  Sase.Model Sase.ProofsBounds Sase.ProofsSound Sase.ProofsSoundEngine Sase.ProofsCompile Sase.ProofsPattern Sase.ProofsKleene Sase.Props.
 Check (C01_matches_have_derivations_partial :
   forall steps negs part max_runs st lim evs out,
     run_collect (mkCfg (compile steps) negs part max_runs st lim) engine0 evs = Some out ->
@@ -17,5 +17,24 @@ Check (d_take : forall n negs es st q x q' s',
       deriv n negs (es ++ [x]) (st ++ [(x, s_alias s')]) q').
 Check (d_skip : forall n negs es st q x,
       deriv n negs es st q -> nhit negs x (caps_of st) = false -> deriv n negs (es ++ [x]) st q).
+Check (C01_matches_are_occurrences :
+  forall steps negs part max_runs st lim evs out,
+    run_collect (mkCfg (compile steps) negs part max_runs st lim) engine0 evs = Some out ->
+    Forall (Forall (occurrence steps negs evs)) out).
+Check (eq_refl : occurrence = fun steps negs P m =>
+  exists es st j, infix es P /\ pocc steps negs es st j /\ S j = length steps /\
+                  m_stack m = map (fun x => eid (fst x)) st).
+Check (p_start : forall steps negs e s0, nth_error steps 0 = Some s0 -> eager_ok s0 e [] = true -> pocc steps negs [e] [(e, st_alias s0)] 0).
+Check (p_skip : forall steps negs es st j x, pocc steps negs es st j -> nhit negs x (caps_of st) = false -> pocc steps negs (es ++ [x]) st j).
+Check (p_again : forall steps negs es st j x s, pocc steps negs es st j -> nhit negs x (caps_of st) = false ->
+      nth_error steps j = Some s -> st_all s = true -> eager_ok s x (caps_of st) = true ->
+      pocc steps negs (es ++ [x]) (st ++ [(x, st_alias s)]) j).
+Check (p_next : forall steps negs es st j x s, pocc steps negs es st j -> nhit negs x (caps_of st) = false ->
+      nth_error steps (S j) = Some s -> eager_ok s x (caps_of st) = true ->
+      pocc steps negs (es ++ [x]) (st ++ [(x, st_alias s)]) (S j)).
+Check (eq_refl : eager_ok = fun s x c =>
+  N.eqb (ety x) (st_ty s) && match eager_pred s with Some p => eval_pred p x c | None => true end).
+Check (eq_refl : eager_pred = fun s => if st_all s && postpone s then None else st_pred s).
+Print Assumptions C01_matches_are_occurrences.
 Print Assumptions C01_matches_have_derivations_partial.
 Print Assumptions C01_step_invariant.
